@@ -15,7 +15,6 @@
 package bfe_proxy
 
 import (
-	"fmt"
 	"io"
 	"net"
 	"sync"
@@ -198,19 +197,31 @@ func (p *Conn) checkProxyHeader() error {
 	}
 
 	// initial real src/dst address
-	srcAddr := net.JoinHostPort(hdr.SourceAddress.String(), fmt.Sprintf("%d", hdr.SourcePort))
-	p.srcAddr, err = net.ResolveTCPAddr(hdr.TransportProtocol.String(), srcAddr)
+	p.srcAddr, err = proxyTCPAddr(hdr.TransportProtocol, hdr.SourceAddress, hdr.SourcePort)
 	if err != nil { /* never go here */
 		p.Close()
 		return err
 	}
 
-	dstAddr := net.JoinHostPort(hdr.DestinationAddress.String(), fmt.Sprintf("%d", hdr.DestinationPort))
-	p.dstAddr, err = net.ResolveTCPAddr(hdr.TransportProtocol.String(), dstAddr)
+	p.dstAddr, err = proxyTCPAddr(hdr.TransportProtocol, hdr.DestinationAddress, hdr.DestinationPort)
 	if err != nil { /* never go here */
 		p.Close()
 		return err
 	}
 
 	return nil
+}
+
+// proxyTCPAddr builds the address advertised by a PROXY header. It replaces
+// net.ResolveTCPAddr(proto, JoinHostPort(ip.String(), port)): IP.String() renders an
+// IPv4-mapped IPv6 address in dotted form which "tcp6" refuses, and a nil IP would be
+// looked up as host name "<nil>".
+func proxyTCPAddr(proto AddressFamilyAndProtocol, ip net.IP, port uint16) (*net.TCPAddr, error) {
+	if !proto.IsStream() || !(proto.IsIPv4() || proto.IsIPv6()) {
+		return nil, net.UnknownNetworkError(proto.String())
+	}
+	if ip == nil {
+		return nil, ErrInvalidAddress
+	}
+	return &net.TCPAddr{IP: ip, Port: int(port)}, nil
 }
